@@ -224,6 +224,8 @@ def gen_body(rng, pnames):
         ["zq_kept{0} = {1}".format(u, a), "del {0}".format(a)] if pnames else ["zq_nodel{} = 0".format(u)],
         # a local that carries a name other interfaces use for a PARAMETER (never one of this function's own)
         (lambda o: ["{0} = {1}".format(o, u), "print('zq_other{0}', {1})".format(u, o)])(rng.choice([n for n in PNAMES if n not in pnames])),
+        # a local spelt like the entry the class emitter uses for the return value (never a parameter)
+        ["return_type = {0}".format(u), "print('zq_rt{0}', [return_type for zq_r in range(1)])".format(u)],
     ]
     k = rng.randint(1, 5)
     chosen = rng.sample(pool, k)
